@@ -111,6 +111,11 @@ pub struct EvSc {
 	pub throttle: u64,
 	/// a run-time throttle change to this value becomes an ENV action
 	pub throttle_change: Option<u64>,
+	/// configure durations that are not a whole number of milliseconds: `throttle` ticks
+	/// stands for (throttle - 1) ticks + 500 µs, which has the same tick-level semantics
+	/// (the window ends strictly between two ticks) — "for all throttle durations"
+	#[serde(default)]
+	pub sub_ms: bool,
 	pub gated: bool,
 	pub horizon: u64,
 	pub errh: ErrBeh,
@@ -121,7 +126,7 @@ pub struct EvSc {
 
 impl EvSc {
 	pub fn base(script: Vec<(Ev, u8)>, throttle: u64) -> Self {
-		EvSc { script, chan: 4096, err_chan: 64, throttle, throttle_change: None, gated: false, horizon: throttle + 2, errh: ErrBeh::Record, slow_errh: false }
+		EvSc { script, chan: 4096, err_chan: 64, throttle, throttle_change: None, sub_ms: false, gated: false, horizon: throttle + 2, errh: ErrBeh::Record, slow_errh: false }
 	}
 }
 
@@ -398,7 +403,7 @@ fn install_errh(config: &Config, beh: ErrBeh, gen: usize) {
 
 async fn body(sc: &EvSc, bounds: Bounds, prop: &str) -> Obs {
 	let config = Config::default();
-	config.throttle(rt::TICK * sc.throttle as u32);
+	config.throttle(throttle_duration(sc, sc.throttle));
 	config.filterer(ScriptedFilter { invert: false });
 	let mut config = config;
 	config.event_channel_size = sc.chan;
@@ -579,7 +584,7 @@ async fn body(sc: &EvSc, bounds: Bounds, prop: &str) -> Obs {
 			Act::SetThrottle => {
 				let t = throttle_pending.take().unwrap();
 				w(|x| x.log.push(L::Throttle { ticks: t, t: now }));
-				wx.config.throttle(rt::TICK * t as u32);
+				wx.config.throttle(throttle_duration(sc, t));
 			}
 		}
 	}
@@ -835,6 +840,15 @@ fn c01_end(sc: &EvSc, main_done: bool) {
 	}
 }
 
+/// The configured duration for a throttle of `ticks` ticks (see `EvSc::sub_ms`).
+fn throttle_duration(sc: &EvSc, ticks: u64) -> std::time::Duration {
+	if sc.sub_ms && ticks >= 1 {
+		rt::TICK * (ticks - 1) as u32 + std::time::Duration::from_micros(500)
+	} else {
+		rt::TICK * ticks as u32
+	}
+}
+
 /// C02: lower bound in every schedule; exact agreement with the DebounceModel on the
 /// default schedule with a fixed throttle.
 fn c02_end(sc: &EvSc, default_schedule: bool) {
@@ -1081,8 +1095,20 @@ pub fn scenarios(prop: &str, tier: Tier) -> Vec<(EvSc, Vec<Bounds>)> {
 						for to in [0u64, thr + 1] {
 							let mut c = sc.clone();
 							c.throttle_change = Some(to);
-							out.push((c, passes.clone()));
+							out.push((c.clone(), passes.clone()));
+							if to > 0 {
+								c.sub_ms = true;
+								out.push((c, ladder(0)));
+							}
 						}
+					}
+					// durations that are not whole milliseconds (also below one millisecond)
+					if l <= 3 {
+						let mut c = sc.clone();
+						c.throttle = (*thr).max(1);
+						c.horizon = c.throttle + 3;
+						c.sub_ms = true;
+						out.push((c, ladder(0)));
 					}
 				}
 			}
